@@ -47,6 +47,15 @@ ASSUMPTIONS = [
     "and required by the oracle to keep the class and to disclose nothing",
     "when CPython's traceback module itself fails on an exception (a SyntaxError with a malformed detail tuple) the "
     "traceback field is the literal '<traceback unavailable>'; everything else of the exception still arrives",
+    "'immutable' in the statement is read as: one of the twelve types brine carries by value, by EXACT type (None, "
+    "NotImplemented, Ellipsis, bool, int, float, complex, bytes, str, and tuple / frozenset / slice of such); every other "
+    "argument or attribute — lists and dicts, but also an IntEnum member, a Fraction, an instance of a str subclass, a tuple "
+    "holding one — arrives as its repr() text (generated and compared; the oracle expects exactly that)",
+    "rpyc.core.vinegar._generic_exceptions_cache (one class per distinct 'module.class' text a peer names) and "
+    "_exception_classes_cache grow without bound and are never pruned: a peer can make the receiver allocate one class per "
+    "crafted name; resource exhaustion is outside this property",
+    "typed setters of built-in exception classes (characters_written, start, end: ints within ssize_t) are measured per kind of "
+    "value on representative values; their getters return what their setters accept (obligation table_getters_within_setters)",
     "an imported module does not raise a non-Exception BaseException while being imported",
     "custom classes do not override __new__ / metaclass / the `args` descriptor with code of their own (other than "
     "needing constructor arguments, which is modelled)",
@@ -59,7 +68,9 @@ ASSUMPTIONS = [
     "module names containing NUL or lone surrogates (only obtainable by assigning __module__) make `type()` refuse the "
     "generic stand-in's name (ValueError / UnicodeEncodeError out of load): modelled and compared, not demanded by the oracle",
 ]
-EXPLANATION = ("Theorems: builtin_fidelity (any built-in class whose __new__ takes no arguments, any argument tuple, all 4x8 "
+EXPLANATION = ("C09_partial_interpreter: for EVERY built-in exception class of this interpreter (table measured by the generator: "
+               "__new__ needs arguments?, typed setters, dir() sanity) whose __new__ takes no arguments, with no environment "
+               "hypothesis. Theorems: builtin_fidelity (any built-in class whose __new__ takes no arguments, any argument tuple, all 4x8 "
                "switch settings: same class, args = normalised args, same immutable public data attributes, traceback/version "
                "text iff the sender's switches allow); custom_gate (real class iff instantiate_custom_exceptions and the module "
                "is loaded or imported under import_custom_exceptions and holds an exception class; otherwise the generic "
@@ -666,6 +677,7 @@ def known_probes(ctx):
             if res and res[1] == KNOWN_SIG:
                 hits.append("%s/%s" % (name, mode))
     text = ("signature=%s a remote exception whose class needs arguments in __new__ (%s on this interpreter) does not "
-            "surface as that class: cls.__new__(cls) in vinegar.load raises TypeError out of the receiver's serve() "
+            "surface as that class: cls.__new__(cls) in vinegar.load raises TypeError, and the requester gets that TypeError "
+            "(raised out of its serve(), or delivered as the request's outcome) instead of the remote exception "
             "[reproduced: %s]" % (KNOWN_SIG, ", ".join(needing), ", ".join(hits) or "none"))
     return [(KNOWN_SIG, bool(hits), text)]
